@@ -6,10 +6,10 @@ CONSTANTS
  Levels <- LevelsDef
  Quiet = FALSE
  ExtSetUp = TRUE
- KF_OpenAfterClose = TRUE
+ KF_OpenAfterClose = FALSE
  KF_GuardOnVisibleOnly = FALSE
 KF_SurvivorsOnly = FALSE
-KF_RetryUnguarded = FALSE
+KF_RetryUnguarded = TRUE
 MaxRetry = 2
 INVARIANT C07_OneAtATime
 PROPERTIES C07_NoOpenAfterClose C07_GcStep C07_NoOpenOnBreak C12_GameBlindFixed C12_GameBlindAtOpen C08_PauseIff C08_SetUpEnough
